@@ -594,7 +594,7 @@ Definition wf_op (n : nat) (s : st) (o : op) : bool :=
   | OSynth _ _ def args _ _ => plain def && sargs_ok n args
   | OGroup _ _ _ _ => true
   | OBasicNew _ => true
-  | ONodeSet _ args => set_ok n args && nonempty args
+  | ONodeSet _ args => set_ok n args && nonempty (flat_map (embed false s) args)
   | ONodeSetn _ args => setn_ok w_ctl (map (aci s) args) && nonempty args
   | ONodeMap _ _ args => mapargs_ok s args && nonempty args
   | ONodeMapn _ _ args => mapargs_ok s args && nonempty args
